@@ -137,7 +137,10 @@ fn cap_depth(profile: &str, shape: &str, api: &str, tier: Tier, d: usize) -> usi
         // nested collection *keys*: the loader hashes every key subtree, which is quadratic in the
         // depth (16 000 levels take ~7 s); cost bound, stated in the evidence
         d.min(10_000)
-    } else if api == "emit" && !matches!(shape, "seq" | "flowseq" | "block-flow") {
+    } else if shape == "key" && matches!(api, "built_drop" | "emit" | "emit_ml") {
+        // a tree nested in key position is hashed once per level while it is built: quadratic
+        d.min(3000)
+    } else if api.starts_with("emit") && !matches!(shape, "seq" | "flowseq" | "block-flow") {
         // nested block mappings are emitted one per line with growing indentation: the output is
         // quadratic in the depth (cost bound, stated in the evidence)
         d.min(5000)
@@ -158,7 +161,7 @@ impl Property for C11P {
         "Scenarios = build profile {the harness's optimised build; the unoptimised dev profile of /verif/nestchild, where frames are larger and tail calls stay calls — present when bin/check built it} x nesting shape {'- ', '? ', '[', '{a: ', alternating block, alternating flow, block then flow, 'k:' per level \
          (depth capped at 5*10^3 quick / 2*10^4 thorough because the input is quadratic; nested collection keys through the loaders capped at 10^4 (3*10^3 unoptimised) because hashing nested keys is quadratic), random opener mixes} x API {pull iterator, \
          Parser::load with a counting receiver, load_from_str + forget, load_from_str + drop, MarkedYamlOwned load + drop, iteratively \
-         built tree + drop, iteratively built tree + YamlEmitter::dump} x depth {1, 10, 10^2, 10^3, 10^4, 3*10^4, 10^5 (+3*10^3, 3*10^5 thorough)} \
+         built tree + drop, iteratively built tree + YamlEmitter::dump with default settings and with multiline_strings(true); the '? ' shape is built nested in key position (capped at 3*10^3: building it hashes every level)} x depth {1, 10, 10^2, 10^3, 10^4, 3*10^4, 10^5 (+3*10^3, 3*10^5 thorough)} \
          plus proptest-generated (shape, API, log-uniform depth, opener word). Each scenario runs in its own child process on a thread \
          with an 8 MiB stack; the child must exit normally with 'ok' or 'err'. SIGSEGV / SIGABRT => violation (smallest crashing depth \
          bisected). Non-trivial = depth >= 1000; distinct by (profile, shape, API, depth, word)."
@@ -192,7 +195,12 @@ impl Property for C11P {
                             check_scenario(profile, shape, api, d, &[])
                         });
                         if let Err(f) = r {
+                            let hang = f.category == "hang";
                             ctx.record(json(), &f);
+                            if hang {
+                                // every further scenario of this shape would cost another 120 s: one hang decides the block
+                                return;
+                            }
                         }
                     }
                 }
